@@ -113,7 +113,7 @@ theorem decCols_rt (cfg : Cfg) (hcap : cfg.cap = none) (v rows : Nat) : ∀ (col
     obtain ⟨h1, h2, h3⟩ := h c (by simp)
     simp only [schemaOf, List.map_cons, decCols, colsBytes, colBytes, List.append_assoc]
     rw [bind_ok' (colHeader_rt cfg v c.name c.tyName _ h1 h2)]
-    simp only [beq_self_eq_true, Bool.and_self]
+    simp only [beq_self_eq_true, Bool.true_or, Bool.and_self]
     rw [bind_ok' (guard_true _ _)]
     have := colBody_rt cfg hcap rows c (colsBytes v rows cs ++ r) h3
     rw [bind_ok' this]
